@@ -69,6 +69,7 @@ func runAll() {
 		}
 		id, prop, op := c.L[1], c.L[2], c.L[3]
 		currentCase.Store(line)
+		exactFirst = prop.isSym("C01")
 		o := measure(op)
 		fmt.Fprintf(out, "(chk %s %s %s %s %s)\n", id, prop, op, o.obs, o.meta())
 		if prop.isSym("C01") {
